@@ -13,7 +13,7 @@ def loops_harness():
     return dv.build_harness('h_loops', ['h_loops.cpp'])
 
 
-PREFIXES = ('plan ', 'pf ', 'fe ', 'fe|', 'feplan ', 'pi ', 'ovl ', 'scs ', 'scg ', 'ERR ')
+PREFIXES = ('plan ', 'pf ', 'fe ', 'fe|', 'feplan ', 'fecap ', 'pi ', 'ovl ', 'scs ', 'scg ', 'ERR ')
 
 
 def run_lines(exe, lines, timeout=600):
